@@ -1,5 +1,6 @@
 #!/bin/bash
-# End-to-end demonstration of the finding `ignored_file_with_quoted_numstat_path` with the built binary (no rebuild).
+# End-to-end demonstration of the defect `ignored_file_with_quoted_numstat_path` (repaired in /repo c045cb68) with a built binary:
+# a binary built BEFORE the repair prints 4, one built after it prints 1 in all three runs.
 # usage: demo_quoted_path.sh <scratch dir>      (creates <scratch dir>/home and <scratch dir>/r)
 set -e
 D=${1:?scratch dir}; BIN=${GIT_AI_BIN:-/repo/target/debug/git-ai}
